@@ -8,6 +8,7 @@ from ConfigSpace.hyperparameters import (
     NumericalHyperparameter,
     OrdinalHyperparameter,
 )
+from ConfigSpace.exceptions import ForbiddenValueError
 from ConfigSpace.util import deactivate_inactive_hyperparameters
 
 from deephyper.evaluator import HPOJob
@@ -76,6 +77,7 @@ class RegularizedEvolution(Search):
         self.population_size = population_size
         self.sample_size = sample_size
         self._population = deque(maxlen=self.population_size)
+        self._max_mutation_trials = 100
 
     def _ask(self, n: int = 1) -> List[Dict]:
         """Ask the search for new configurations to evaluate.
@@ -126,20 +128,35 @@ class RegularizedEvolution(Search):
 
                 parent_sample = max(samples, key=lambda x: x[1])[0]
 
-                child_sample = parent_sample.copy()
                 # get_active_hyperparameters returns a set: sort the names so that the seeded
                 # choice below does not depend on the hash seed of the process
                 active_hyperparameter_names = sorted(
                     space.get_active_hyperparameters(
-                        deactivate_inactive_hyperparameters(child_sample, space)
+                        deactivate_inactive_hyperparameters(parent_sample.copy(), space)
                     )
                 )
-                hp_name = self._random_state.choice(active_hyperparameter_names)
-                hp = space[hp_name]
-                hp_value = hp.rvs(size=None, random_state=space.random)
 
-                child_sample[hp_name] = hp_value
-                child_sample = dict(deactivate_inactive_hyperparameters(child_sample, space))
+                # A mutation can fall on a configuration excluded by a forbidden clause of
+                # the problem, in this case an other mutation is drawn.
+                child_sample = None
+                for _ in range(self._max_mutation_trials):
+                    mutated_sample = parent_sample.copy()
+                    hp_name = self._random_state.choice(active_hyperparameter_names)
+                    hp = space[hp_name]
+                    hp_value = hp.rvs(size=None, random_state=space.random)
+
+                    mutated_sample[hp_name] = hp_value
+                    try:
+                        child_sample = dict(
+                            deactivate_inactive_hyperparameters(mutated_sample, space)
+                        )
+                        break
+                    except ForbiddenValueError:
+                        continue
+
+                # No valid mutation was found, a new random configuration is sampled.
+                if child_sample is None:
+                    child_sample = dict(space.sample_configuration())
 
                 for hp_name in self._problem.hyperparameter_names:
                     # If the parameter is inactive due to some conditions then we attribute the
